@@ -521,17 +521,17 @@ def rule_cryptosign(ctx):
     ctx.require(len(procs) == 1 and len(rs) == 1, "_sign_challenge: process closure / return not found")
     tp = TermEval(p, procs[0], inline=inline, outer_env=ts.env).run()
     res = [(c, t) for c, t, st in tp.effects if t[0] == "call" and t[1] == ("g", "txaio.resolve")]
-    fut = ts.env.get("d2")
+    fut = rs[0].term   # the returned future, whatever local holds it
     sigp = P(procs[0].params()[0])
     ref = ("cat", FMT(("dec", "ascii", ("hex", sigp)), "+"), FMT(("dec", "ascii", ("hex", P("data"))), "+"))
-    ok = len(res) == 1 and res[0][1][2][0] == fut and rs[0].term == fut
+    ok = len(res) == 1 and res[0][1][2][0] == fut and isinstance(fut, tuple) and fut[0] == "call"
     ctx.ob("cryptosign: the future returned by _sign_challenge is the one resolved with the result", ok, "returned future is not the resolved one", sc.loc())
     if res:
         expect(ctx, "cryptosign: result = hex(signature) followed by hex(signed message)", res[0][1][2][1], ref, procs[0].loc())
-    d1 = ts.env.get("d1")
-    ctx.ob("cryptosign: the signer is applied to the formatted message", d1 == ("call", P("signer_func"), (P("data"),), ()), f"signer input {show(d1)[:100]}", sc.loc())
     cb = [t for c, t, st in ts.effects if t[0] == "call" and t[1] == ("g", "txaio.add_callbacks")]
-    ctx.ob("cryptosign: the signature continuation is attached to the signer's result", len(cb) == 1 and cb[0][2][0] == d1, "add_callbacks target changed", sc.loc())
+    d1 = cb[0][2][0] if len(cb) == 1 and cb[0][2] else None   # what the continuation is attached to, whatever local holds it
+    ctx.ob("cryptosign: the signer is applied to the formatted message", d1 == ("call", P(sc.params()[1]), (P(sc.params()[0]),), ()), f"signer input {show(d1)[:100] if d1 is not None else None}", sc.loc())
+    ctx.ob("cryptosign: the signature continuation is attached to the signer's result", len(cb) == 1 and d1 is not None and d1[0] == "call", "add_callbacks target changed", sc.loc())
     # key.sign / sign_challenge / authenticator
     key = p.cls(f"{CS}.CryptosignKey")
     sg = key.methods["sign"]
